@@ -22,7 +22,7 @@ PLAN = {
     "C05": [("limits_profile", 110, 4000), ("year_end", 25, 1000)],
     "C06": [("chain_subslot", 60, 2000), ("alap_profile", 40, 1500), ("dags", 50, 1500), ("alap_pack", 30, 1000), ("ms_bounds", 40, 1500), ("mixed_subslot", 20, 800)],
     "C07": [("core_dialect", 110, 5000), ("container_gate", 25, 1000), ("gap_bounds", 20, 800), ("dst_weekend", 25, 1000)],
-    "C08": [("core_dialect", 60, 2500), ("alap_profile", 40, 1500), ("calendars", 20, 1000), ("dup_alap", 20, 800), ("dags_alap", 40, 1500), ("staged_containers", 30, 1000), ("gap_bounds", 30, 1000), ("jit", 25, 1000)],
+    "C08": [("core_dialect", 60, 2500), ("alap_profile", 40, 1500), ("calendars", 50, 1000), ("dup_alap", 20, 800), ("dags_alap", 40, 1500), ("staged_containers", 30, 1000), ("gap_bounds", 30, 1000), ("jit", 25, 1000)],
     "C10": [("trees", 60, 2500), ("dags", 30, 1200)],
 }
 
